@@ -9,13 +9,14 @@ import (
 // compaction happen within a few operations.
 func GenConfig(rt *rapid.T) Config {
 	return Config{
-		MemTable:   rapid.SampledFrom([]int{48, 64, 96, 160, 256, 512}).Draw(rt, "memtable"),
-		WAL:        rapid.SampledFrom([]int{96, 128, 512, 4096}).Draw(rt, "wal"),
-		TargetFile: rapid.SampledFrom([]int{48, 64, 128, 512, 2048}).Draw(rt, "targetfile"),
-		L0Trigger:  rapid.IntRange(1, 4).Draw(rt, "l0trigger"),
-		AmpPercent: rapid.SampledFrom([]int{1, 25, 50, 100, 200, 1000}).Draw(rt, "amp"),
-		SmallLevel: rapid.SampledFrom([]int64{32, 64, 256, 1024, 1 << 28}).Draw(rt, "smalllevel"),
-		RankSeed:   rapid.Uint32().Draw(rt, "rankseed"),
+		MemTable:     rapid.SampledFrom([]int{48, 64, 96, 160, 256, 512}).Draw(rt, "memtable"),
+		WAL:          rapid.SampledFrom([]int{96, 128, 512, 4096}).Draw(rt, "wal"),
+		TargetFile:   rapid.SampledFrom([]int{48, 64, 128, 512, 2048}).Draw(rt, "targetfile"),
+		L0Trigger:    rapid.IntRange(1, 4).Draw(rt, "l0trigger"),
+		AmpPercent:   rapid.SampledFrom([]int{1, 25, 50, 100, 200, 1000}).Draw(rt, "amp"),
+		SmallLevel:   rapid.SampledFrom([]int64{32, 64, 256, 1024, 1 << 28}).Draw(rt, "smalllevel"),
+		RankSeed:     rapid.Uint32().Draw(rt, "rankseed"),
+		ParkAtCreate: rapid.IntRange(0, 2).Draw(rt, "parkatcreate") == 0,
 	}
 }
 
